@@ -141,7 +141,17 @@ func c03Gen(rng *verifsim.RNG, idx int, tier string) *Plan {
 		// (DAD still running, only deprecated/temporary addresses): the daemon may
 		// refuse to advertise, but must not put an unusable value on the wire
 		p.Class += "+no-eligible-address"
-		s.RDNSS = append(s.RDNSS, RDNSSSpec{Servers: []string{"::"}})
+		rd := RDNSSSpec{Servers: []string{"::"}}
+		if rng.Bool(0.5) {
+			// static servers next to the wildcard do not make an unresolved
+			// wildcard any more meaningful
+			rd.Servers = []string{"2001:db8:53::2", "::", "2001:db8:53::1"}
+		}
+		s.RDNSS = append(s.RDNSS, rd)
+		if rng.Bool(0.3) {
+			// ... or the address listing itself fails for a while
+			p.Faults = append(p.Faults, Fault{Seam: "rtnl.addr", From: int64(rng.Dur(100*time.Millisecond, 3*time.Second)), Count: rng.Range(1, 3), Err: []string{"nl.EPERM", "nl.EINVAL", "opaque"}[rng.Intn(3)]})
+		}
 		iw.Addrs = []AddrW{{CIDR: iw.LL + "/64", Flags: 0x40}, {CIDR: "2001:db8:c::1/64", Flags: 0x40}, {CIDR: "2001:db8:d::1/64", Flags: 0x20}}
 		if rng.Bool(0.5) {
 			// ... at first: DAD completes later
